@@ -145,7 +145,7 @@ impl Hist for C16 {
 }
 
 fn configs(tier: Tier) -> Vec<(C16, usize)> {
-    let d = if tier == Tier::Quick { 5 } else { 7 };
+    let d = if tier == Tier::Quick { 5 } else { 6 };
     let mut v = vec![(C16 { w: 80, tpl0: 2, initial_tab: None, order: 0, fin: None }, d), (C16 { w: 80, tpl0: 0, initial_tab: Some(4), order: 0, fin: None }, d - 1), (C16 { w: 80, tpl0: 1, initial_tab: Some(0), order: 0, fin: None }, d - 1)];
     // a terminal narrower than the tab width
     v.push((C16 { w: 6, tpl0: 1, initial_tab: None, order: 0, fin: None }, d - 2));
